@@ -1,5 +1,6 @@
 import GwbVerif.Properties.C06
 import GwbVerif.Properties.C06Walk
+import GwbVerif.Properties.C06Arc
 open Gwb
 #print axioms C06_membership_iff
 #print axioms C06_covers_iff_pretest
@@ -26,6 +27,14 @@ open Gwb
 #print axioms C06_walk_joint_overlap
 #print axioms C06_walk_joint_overlap_side
 #print axioms C06_walk_only_positive
+#print axioms C06_arc_increasing_dip
+#print axioms C06_arc_decreasing_dip
+#print axioms C06_arc_foot_increasing
+#print axioms C06_arc_foot_decreasing
+#print axioms C06_arc_negative_dip_rejected
+#print axioms C06_arc_dip_above_pi_rejected
+#print axioms C06_arc_polar_exhaustive
+#print axioms C06_arc_piece_full_false
 #check @C06_membership_iff
 #check @C06_covers_iff_pretest
 #check @C06_covers_iff
@@ -51,3 +60,11 @@ open Gwb
 #check @C06_walk_joint_overlap
 #check @C06_walk_joint_overlap_side
 #check @C06_walk_only_positive
+#check @C06_arc_increasing_dip
+#check @C06_arc_decreasing_dip
+#check @C06_arc_foot_increasing
+#check @C06_arc_foot_decreasing
+#check @C06_arc_negative_dip_rejected
+#check @C06_arc_dip_above_pi_rejected
+#check @C06_arc_polar_exhaustive
+#check @C06_arc_piece_full_false
